@@ -236,7 +236,20 @@ def name_pool(rng, deep):
 
 CFG_NAMES = ["nordicsemi.com", "nRF54H20_sample_root", "nRF54H20_sample_app", "nRF54H20_sample_rad", "nRF54H20_nordic_top",
              "nRF9280_sample_app", "acme.example", "root_custom_class", "app custom", "é€ radio", "名前", "", "x" * 300, "y", "0x1F", "123", "acme#1", "acme#2", "a=b", " lead", "trail ", "semi;colon", "UPPER.Example.COM",
-             "0123456789abcdef0123456789abcdef", "12345678-1234-5678-1234-567812345678"]
+             "0123456789abcdef0123456789abcdef", "12345678-1234-5678-1234-567812345678",
+             # names with the two characters Kconfig escapes in a string value
+             'my"class', "back\\slash", 'a\\"b', '"quoted"', "ends with \\"]
+
+
+def kq(name):
+    """a string value as Kconfig writes it into .config: inside double quotes, backslash and double quote escaped with a backslash"""
+    return '"' + name.replace("\\", "\\\\").replace('"', '\\"') + '"'
+
+
+def kunq(text):
+    """the inverse, for replays"""
+    import re
+    return re.sub(r"\\(.)", r"\1", text)
 
 
 def gen_config(rng):
@@ -266,9 +279,9 @@ def gen_config(rng):
     for m, v, c in struct:
         block = [f"SB_CONFIG_SUIT_MPI_{m}=y"]
         if v is not None:
-            block.append(f'SB_CONFIG_SUIT_MPI_{m}_VENDOR_NAME="{v}"')
+            block.append(f'SB_CONFIG_SUIT_MPI_{m}_VENDOR_NAME={kq(v)}')
         if c is not None:
-            block.append(f'SB_CONFIG_SUIT_MPI_{m}_CLASS_NAME="{c}"')
+            block.append(f'SB_CONFIG_SUIT_MPI_{m}_CLASS_NAME={kq(c)}')
         if rng.random() < 0.2:
             block.reverse()
         lines += block
@@ -277,7 +290,7 @@ def gen_config(rng):
     if rng.random() < 0.1 and struct:                        # a key given twice: the later value counts, the position is the first
         m, v, c = struct[0]
         v2 = pick()
-        lines.append(f'SB_CONFIG_SUIT_MPI_{m}_VENDOR_NAME="{v2}"')
+        lines.append(f'SB_CONFIG_SUIT_MPI_{m}_VENDOR_NAME={kq(v2)}')
         struct[0] = (m, v2, c)
     return struct, "\n".join(lines) + "\n"
 
@@ -610,7 +623,7 @@ def replay(path):
             for ln in (inp["config"] or "").split("\n"):
                 m = re.match(r'^SB_CONFIG_SUIT_MPI_([A-Z1-9_]+?)_(VENDOR|CLASS)_NAME="(.*)"$', ln)
                 if m:
-                    vals.setdefault(m.group(1), {})[m.group(2)] = m.group(3)
+                    vals.setdefault(m.group(1), {})[m.group(2)] = kunq(m.group(3))
             struct = [(m, d.get("VENDOR"), d.get("CLASS")) for m, d in vals.items()]
             f = check_kconfig(ck, tmp, "replay", soc, struct, inp["config"], qs, None)
         elif inp["op"] == "boot":
